@@ -126,13 +126,16 @@ func getSigBlock(f *os.File) (*zipslicer.Directory, []byte, error) {
 		// not signed
 		return inz, nil, nil
 	}
+	if sigLoc > inz.DirLoc {
+		return nil, nil, errMalformed
+	}
 	// read signature block
 	blob := make([]byte, inz.DirLoc-sigLoc)
 	if _, err := f.ReadAt(blob, sigLoc); err != nil {
 		return nil, nil, err
 	}
 	// check magic
-	if !bytes.HasSuffix(blob, []byte(sigMagic)) {
+	if len(blob) < 32 || !bytes.HasSuffix(blob, []byte(sigMagic)) {
 		return nil, nil, errMalformed
 	}
 	expected := uint64(len(blob) - 8)
